@@ -362,7 +362,15 @@ func (r *transport) handleCacheHit(
 		age := freshness.Age.Value + r.clock.Since(freshness.Age.Timestamp)
 		staleFor := age - freshness.UsefulLife
 		if staleFor >= 0 && staleFor < swr {
-			return r.handleStaleWhileRevalidate(req, stored, urlKey, freshness, ccReq)
+			return r.handleStaleWhileRevalidate(
+				req,
+				stored,
+				urlKey,
+				freshness,
+				ccReq,
+				isRespNoCacheQualified,
+				respNoCacheFieldsSeq,
+			)
 		}
 	}
 
@@ -422,6 +430,8 @@ func (r *transport) handleStaleWhileRevalidate(
 	urlKey string,
 	freshness *internal.Freshness,
 	ccReq internal.CCRequestDirectives,
+	noCacheQualified bool,
+	noCacheFieldsSeq iter.Seq[string],
 ) (*http.Response, error) {
 	req2 := req.Clone(req.Context())
 	req2 = withConditionalHeaders(req2, stored.Data.Header)
@@ -432,6 +442,12 @@ func (r *transport) handleStaleWhileRevalidate(
 	// Open a discussion at github.com/bartventer/httpcache/issues if your use case requires
 	// guaranteed completion.
 	go r.backgroundRevalidate(req2, stored, urlKey, freshness, ccReq)
+	if noCacheQualified {
+		// Qualified no-cache: the nominated fields must not be replayed without validation
+		for field := range noCacheFieldsSeq {
+			stored.Data.Header.Del(field)
+		}
+	}
 	internal.SetAgeHeader(stored.Data, r.clock, freshness.Age)
 	internal.CacheStatusStale.ApplyTo(stored.Data.Header)
 	r.logger.LogCacheStaleRevalidate(req, urlKey, internal.MiscFunc(func() internal.Misc {
